@@ -200,7 +200,7 @@ def run(R, tier):
                           'get, write) on one Parser, each get/write compared with a fresh parser configured with the settings in force; plus the '
                           'text hash across subprocesses with several PYTHONHASHSEEDs and from 4 concurrent threads; non-trivial = a setter after a get')
     C.proof_obligations(R, 'theories/Props/C09.v', 'Props.C09', TARGETS)
-    if any('build failed' in b for b in R.broken):
+    if any('Coq build failed' in b for b in R.broken):
         return
     paths = mkbooks()
     n = 150 if tier == 'quick' else 1500
